@@ -67,7 +67,8 @@ Inductive wrec :=
 | RCheckpoint (upto epoch : N).
 
 Record state := mkState {
-  runs : list (N * mem);              (* published_runs, newest first: (txid, frozen memtable) *)
+  runs : list mem;                    (* published_runs, newest first: the frozen memtables *)
+  rtx : list N;                       (* their transaction ids (same order); only compaction reads them *)
   segs : list (list edge);            (* published_segments, newest first *)
   store_n : list ((N * N) * N);       (* sunk node properties: insertions, newest first *)
   store_e : list ((edge * N) * N);    (* sunk edge properties *)
@@ -80,10 +81,10 @@ Record state := mkState {
   wal : list (N * list wrec);         (* committed transactions in log order *)
   vecs : list N                       (* ids present in the vector index *)
 }.
-Definition s0 : state := mkState [] [] [] [] [] [] [] 1 0 0 [] [].
+Definition s0 : state := mkState [] [] [] [] [] [] [] [] 1 0 0 [] [].
 
-Definition set_runs (s : state) r := mkState r s.(segs) s.(store_n) s.(store_e) s.(i2e) s.(i2l) s.(interner) s.(next_txid) s.(ckpt) s.(epoch) s.(wal) s.(vecs).
-Definition set_txid (s : state) t := mkState s.(runs) s.(segs) s.(store_n) s.(store_e) s.(i2e) s.(i2l) s.(interner) t s.(ckpt) s.(epoch) s.(wal) s.(vecs).
+Definition set_runs (s : state) r := mkState r s.(rtx) s.(segs) s.(store_n) s.(store_e) s.(i2e) s.(i2l) s.(interner) s.(next_txid) s.(ckpt) s.(epoch) s.(wal) s.(vecs).
+Definition set_txid (s : state) t := mkState s.(runs) s.(rtx) s.(segs) s.(store_n) s.(store_e) s.(i2e) s.(i2l) s.(interner) t s.(ckpt) s.(epoch) s.(wal) s.(vecs).
 Definition bump (s : state) := set_txid s (N.succ s.(next_txid)).
 
 (* ---------------- write transaction (engine.rs WriteTxn) ---------------- *)
@@ -107,7 +108,7 @@ Definition apply_op (st : state * txn) (o : wop) : state * txn :=
   match o with
   | OGetLabel name =>
       if memN name s.(interner) then st
-      else (mkState s.(runs) s.(segs) s.(store_n) s.(store_e) s.(i2e) s.(i2l) (s.(interner) ++ [name])
+      else (mkState s.(runs) s.(rtx) s.(segs) s.(store_n) s.(store_e) s.(i2e) s.(i2l) (s.(interner) ++ [name])
                     (N.succ s.(next_txid)) s.(ckpt) s.(epoch)
                     (s.(wal) ++ [(s.(next_txid), [RCreateLabel name (N.of_nat (length s.(interner)))])]) s.(vecs), t)
   | OCreateNode ext lab =>
@@ -126,7 +127,7 @@ Definition apply_op (st : state * txn) (o : wop) : state * txn :=
   | OSetEP e k v => (s, set_mem t (mem_set_ep t.(tx_mem) e k v))
   | ORemEP e k => (s, set_mem t (mem_rem_ep t.(tx_mem) e k))
   | OSetVec n =>
-      (mkState s.(runs) s.(segs) s.(store_n) s.(store_e) s.(i2e) s.(i2l) s.(interner) s.(next_txid)
+      (mkState s.(runs) s.(rtx) s.(segs) s.(store_n) s.(store_e) s.(i2e) s.(i2l) s.(interner) s.(next_txid)
                s.(ckpt) s.(epoch) s.(wal) (if memN n s.(vecs) then s.(vecs) else n :: s.(vecs)), t)
   end.
 
@@ -147,16 +148,17 @@ Definition commit_records (t : txn) : list wrec :=
 (* idmap.rs apply_add_label / apply_remove_label on the in-memory lists (unknown node: ignored here,
    an error in the code — the generator never produces it) *)
 Definition i2l_add (l : list (list N)) (p : N * N) : list (list N) :=
-  upd_nth (label_add (snd p)) (N.to_nat (fst p)) l.
+  updN (label_add (snd p)) (fst p) l.
 Definition i2l_rem (l : list (list N)) (p : N * N) : list (list N) :=
-  upd_nth (label_rem (snd p)) (N.to_nat (fst p)) l.
+  updN (label_rem (snd p)) (fst p) l.
 
 Definition commit (s : state) (t : txn) : state :=
   let i2e' := s.(i2e) ++ map (fun c => (fst (fst c), snd (fst c))) t.(tx_created) in
   let i2l0 := s.(i2l) ++ map (fun c => [snd (fst c)]) t.(tx_created) in
   let i2l' := fold_left i2l_rem t.(tx_lrem) (fold_left i2l_add t.(tx_ladd) i2l0) in
-  let runs' := if mem_is_empty t.(tx_mem) then s.(runs) else (t.(tx_id), t.(tx_mem)) :: s.(runs) in
-  mkState runs' s.(segs) s.(store_n) s.(store_e) i2e' i2l' s.(interner) (N.succ s.(next_txid))
+  let runs' := if mem_is_empty t.(tx_mem) then s.(runs) else t.(tx_mem) :: s.(runs) in
+  let rtx' := if mem_is_empty t.(tx_mem) then s.(rtx) else t.(tx_id) :: s.(rtx) in
+  mkState runs' rtx' s.(segs) s.(store_n) s.(store_e) i2e' i2l' s.(interner) (N.succ s.(next_txid))
           s.(ckpt) s.(epoch) (s.(wal) ++ [(t.(tx_id), commit_records t)]) s.(vecs).
 
 Definition run_txn (s : state) (ops : list wop) (do_commit : bool) : state :=
@@ -166,23 +168,23 @@ Definition run_txn (s : state) (ops : list wop) (do_commit : bool) : state :=
 
 (* ---------------- compaction (engine.rs compact / build_segment_from_runs) ---------------- *)
 (* newest -> oldest; a run's own tombstones are added to the blocked sets BEFORE its edges are filtered *)
-Fixpoint seg_edges (rs : list (N * mem)) (bn : list N) (be : list edge) : list edge :=
+Fixpoint seg_edges (rs : list mem) (bn : list N) (be : list edge) : list edge :=
   match rs with
   | [] => []
-  | (_, m) :: rs' =>
+  | m :: rs' =>
       let bn' := m.(me_tn) ++ bn in
       let be' := m.(me_te) ++ be in
       filter (fun e => negb (memN (e_src e) bn' || memN (e_dst e) bn' || memE e be')) m.(me_edges)
       ++ seg_edges rs' bn' be'
   end.
 (* property sinking: newest value per (id, key) over the runs; removed keys are not touched *)
-Fixpoint sink {K} (eqb : K -> K -> bool) (get : mem -> list (K * N)) (rs : list (N * mem)) (acc : list (K * N)) : list (K * N) :=
+Fixpoint sink {K} (eqb : K -> K -> bool) (get : mem -> list (K * N)) (rs : list mem) (acc : list (K * N)) : list (K * N) :=
   match rs with
   | [] => acc
-  | (_, m) :: rs' =>
+  | m :: rs' =>
       sink eqb get rs' (fold_left (fun a kv => if memK eqb (fst kv) (map fst a) then a else a ++ [kv]) (get m) acc)
   end.
-Definition max_txid (rs : list (N * mem)) : N := fold_left (fun a r => N.max a (fst r)) rs 0.
+Definition max_txid (ts : list N) : N := fold_left N.max ts 0.
 
 Definition compact (s : state) : state :=
   match s.(runs) with
@@ -190,9 +192,9 @@ Definition compact (s : state) : state :=
   | _ =>
       let seg := isort edge_leb (seg_edges s.(runs) [] []) in
       let segs' := seg :: s.(segs) in
-      let up_to := max_txid s.(runs) in
+      let up_to := max_txid s.(rtx) in
       let ep := N.succ s.(epoch) in
-      mkState [] segs'
+      mkState [] [] segs'
               (sink nk_eqb me_np s.(runs) [] ++ s.(store_n))
               (sink ek_eqb me_ep s.(runs) [] ++ s.(store_e))
               s.(i2e) s.(i2l) s.(interner) (N.succ s.(next_txid)) up_to ep
@@ -208,7 +210,7 @@ Definition close (s : state) : state :=
       let recs := map (fun p => RCreateLabel (snd p) (fst p))
                       (combine (nseq 0 (length s.(interner))) s.(interner))
                   ++ [RManifest s.(epoch) s.(segs); RCheckpoint up_to s.(epoch)] in
-      mkState s.(runs) s.(segs) s.(store_n) s.(store_e) s.(i2e) s.(i2l) s.(interner)
+      mkState s.(runs) s.(rtx) s.(segs) s.(store_n) s.(store_e) s.(i2e) s.(i2l) s.(interner)
               (N.succ s.(next_txid)) s.(ckpt) s.(epoch) [(s.(next_txid), recs)] s.(vecs)
   end.
 
@@ -249,20 +251,20 @@ Definition replay_rec (st : list (list N) * mem) (x : wrec) : list (list N) * me
   | _ => st
   end.
 (* returns runs oldest-first-reversed = newest first *)
-Fixpoint replay_graph (w : list (N * list wrec)) (ck : N) (l : list (list N)) (acc : list (N * mem)) : list (list N) * list (N * mem) :=
+Fixpoint replay_graph (w : list (N * list wrec)) (ck : N) (l : list (list N)) (acc : list mem) (tacc : list N) : list (list N) * (list mem * list N) :=
   match w with
-  | [] => (l, acc)
+  | [] => (l, (acc, tacc))
   | tx :: w' =>
-      if fst tx <=? ck then replay_graph w' ck l acc
+      if fst tx <=? ck then replay_graph w' ck l acc tacc
       else let (l', m) := fold_left replay_rec (snd tx) (l, mem0) in
-           replay_graph w' ck l' (if mem_is_empty m then acc else (fst tx, m) :: acc)
+           replay_graph w' ck l' (if mem_is_empty m then acc else m :: acc) (if mem_is_empty m then tacc else fst tx :: tacc)
   end.
 
 Definition open (s : state) : state :=
   let r := scan_recovery s.(wal) in
   let l0 := map (fun p => [snd p]) s.(i2e) in
-  let (l, rs) := replay_graph s.(wal) r.(r_ckpt) l0 [] in
-  mkState rs r.(r_segs) s.(store_n) s.(store_e) s.(i2e) l (replay_labels s.(wal))
+  let '(l, (rs, ts)) := replay_graph s.(wal) r.(r_ckpt) l0 [] [] in
+  mkState rs ts r.(r_segs) s.(store_n) s.(store_e) s.(i2e) l (replay_labels s.(wal))
           (N.max (N.succ r.(r_max)) 1) r.(r_ckpt) r.(r_epoch) s.(wal) s.(vecs).
 
 Definition step (s : state) (h : hop) : state :=
@@ -277,10 +279,10 @@ Definition run (h : list hop) : state := fold_left step h s0.
 (* ---------------- reads (read_path_iters.rs, read_path_overlay.rs, api.rs) ---------------- *)
 (* NeighborsIter over the runs: returns the yielded edges and, unless the iterator terminated
    early (src blocked), the blocked sets to use for the segments *)
-Fixpoint scan_out (rs : list (N * mem)) (bn : list N) (be : list edge) (src : N) : list edge * option (list N * list edge) :=
+Fixpoint scan_out (rs : list mem) (bn : list N) (be : list edge) (src : N) : list edge * option (list N * list edge) :=
   match rs with
   | [] => ([], Some (bn, be))
-  | (_, m) :: rs' =>
+  | m :: rs' =>
       if memN src bn then ([], None)
       else
         let here := if memN src m.(me_tn) then []
@@ -296,10 +298,10 @@ Definition m_out (s : state) (src : N) : list edge :=
       if memN src bn then es
       else es ++ flat_map (fun sg => filter (fun e => (e_src e =? src) && negb (memN (e_dst e) bn) && negb (memE e be)) sg) s.(segs)
   end.
-Fixpoint scan_in (rs : list (N * mem)) (bn : list N) (be : list edge) (dst : N) : list edge * option (list N * list edge) :=
+Fixpoint scan_in (rs : list mem) (bn : list N) (be : list edge) (dst : N) : list edge * option (list N * list edge) :=
   match rs with
   | [] => ([], Some (bn, be))
-  | (_, m) :: rs' =>
+  | m :: rs' =>
       if memN dst bn then ([], None)
       else
         let here := if memN dst m.(me_tn) then []
@@ -317,15 +319,15 @@ Definition m_in (s : state) (dst : N) : list edge :=
   end.
 
 Definition m_nodes (s : state) : list N :=
-  filter (fun n => negb (existsb (fun r => memN n (snd r).(me_tn)) s.(runs))) (nseq 0 (length s.(i2e))).
+  filter (fun n => negb (existsb (fun r => memN n r.(me_tn)) s.(runs))) (nseq 0 (length s.(i2e))).
 
 (* node_property_from_runs / edge_property_from_runs: a removal stops the run search with None —
    and api.rs then falls through to the store *)
 Fixpoint prop_runs {K} (eqb : K -> K -> bool) (gp : mem -> list (K * N)) (gr : mem -> list K)
-         (rs : list (N * mem)) (k : K) : option N :=
+         (rs : list mem) (k : K) : option N :=
   match rs with
   | [] => None
-  | (_, m) :: rs' =>
+  | m :: rs' =>
       if memK eqb k (gr m) then None
       else match assoc eqb k (gp m) with Some v => Some v | None => prop_runs eqb gp gr rs' k end
   end.
@@ -342,10 +344,10 @@ Definition m_eprop (s : state) (e : edge) (k : N) : option N :=
 
 (* merge_*_properties_from_runs: `resolved` = keys removed or already seen, newest first *)
 Fixpoint merge_runs {I} (ieqb : I -> I -> bool) (gp : mem -> list ((I * N) * N)) (gr : mem -> list (I * N))
-         (rs : list (N * mem)) (i : I) (resolved : list N) (acc : props) : props :=
+         (rs : list mem) (i : I) (resolved : list N) (acc : props) : props :=
   match rs with
   | [] => acc
-  | (_, m) :: rs' =>
+  | m :: rs' =>
       let removed := filter_map (fun p => if ieqb (fst p) i then Some (snd p) else None) (gr m) in
       let res1 := removed ++ resolved in
       let here := filter_map (fun kv => if ieqb (fst (fst kv)) i then Some (snd (fst kv), snd kv) else None) (gp m) in
@@ -365,8 +367,8 @@ Definition m_nprops (s : state) (n : N) : props :=
 Definition m_eprops (s : state) (e : edge) : props :=
   extend_store edge_eqb s.(store_e) e (merge_runs edge_eqb me_ep me_erm s.(runs) e [] []).
 
-Definition m_labels (s : state) (n : N) : list N := nth (N.to_nat n) s.(i2l) [].
-Definition m_ext (s : state) (n : N) : N := fst (nth (N.to_nat n) s.(i2e) (0, 0)).
+Definition m_labels (s : state) (n : N) : list N := match nthN s.(i2l) n with Some l => l | None => [] end.
+Definition m_ext (s : state) (n : N) : N := match nthN s.(i2e) n with Some r => fst r | None => 0 end.
 Fixpoint index_ext (ext : N) (l : list (N * N)) (i : N) : N :=
   match l with [] => UNLABELED | x :: t => if fst x =? ext then i else index_ext ext t (N.succ i) end.
 Definition m_lookup (s : state) (ext : N) : N := index_ext ext s.(i2e) 0.
@@ -408,6 +410,6 @@ Definition bulk (ns : list bnode) (es : list bedge) : state :=
   let recs := map (fun p => RCreateLabel (snd p) (fst p)) (combine (nseq 0 (length intr)) intr)
               ++ [RManifest 0 [seg]; RCheckpoint 0 0] in
   (* the store lists are newest-first: later insertions in front *)
-  mkState [] [] (rev sn) (rev se)
+  mkState [] [] [] (rev sn) (rev se)
           (map (fun n => (fst (fst n), index_name (snd (fst n)) intr 0)) ns) [] [] 1 0 0 [(0, recs)] [].
 Definition bulk_open (ns : list bnode) (es : list bedge) : state := open (bulk ns es).
